@@ -35,7 +35,7 @@ ASSUMPTIONS = [
     "(defaults 180/90)",
     "TPV headers always carry PV?_0, PV?_1, PV?_2 (scamp always writes them; the code treats an absent PV1_1 "
     "as 0, not as the FITS default 1) and never the radial PV?_3 term (unsupported by design)",
-    "SIP headers carry A/B of equal order with at least one A coefficient, and AP_ORDER/BP_ORDER (the "
+    "SIP headers carry at least one A coefficient, A_ORDER and B_ORDER (equal or not), and AP_ORDER/BP_ORDER (the "
     "constructor requires them)",
     "distortion magnitudes are tied to the field radius (each term <= 2 % of R) so that the map is invertible "
     "over the image -- the 'realistic magnitude' of the statement",
@@ -121,13 +121,16 @@ def headers(draw, kinds=KINDS):
                     h["pv%d_%d" % (ax, k)] = draw(_eps) * rdeg ** (1 - o)
     elif kind == "SIP":
         order = draw(st.sampled_from([2, 3, 4]))
+        # the two axes may be fitted to different orders (one header in three)
+        border = draw(st.sampled_from([order, order, 2, 3, 4]))
         h["a_order"] = order
-        h["b_order"] = order
+        h["b_order"] = border
         first = True
         empty = draw(st.sampled_from([False] * 7 + [True]))     # A/B_ORDER cards without any coefficient
         for pre in ("a", "b") if not empty else ():
-            for p in range(order + 1):
-                for q in range(order + 1 - p):
+            po = order if pre == "a" else border
+            for p in range(po + 1):
+                for q in range(po + 1 - p):
                     if p + q < 2:
                         continue
                     if (first and pre == "a") or draw(st.sampled_from([True, True, True, False])):
@@ -181,6 +184,8 @@ def classify_header(h):
         nt.append("nt:distorted")
         if kind == "SIP":
             labs.append("sip-order:%d" % h["a_order"])
+            labs.append("sip-b-order:%s" % ("same" if h["b_order"] == h["a_order"] else "higher" if h["b_order"] > h["a_order"]
+                                            else "lower"))
             labs.append("sip-inverse-cards:%s" % ("ap_1_0" in h))
         else:
             o = 3 if any(("pv1_%d" % k in h or "pv2_%d" % k in h) for k in (7, 8, 9, 10)) else \
